@@ -1,1 +1,94 @@
-fn main() {}
+//! Stand-in `vampire`: does exactly what the coordinator tells it, when it tells it.
+//!
+//! Protocol over the Unix socket named by VERIF_COORD_SOCK (line based, payloads length-prefixed):
+//!   -> HELLO <pid> <nargs>\n  then one line per argument
+//!   <- READ ALL\n | READ <k>\n
+//!   -> GOT <n> <eof:0|1>\n  then n bytes (what was read from stdin)
+//!   <- FINISH <code|-signal> <out_len> <err_len>\n  then the stdout bytes and the stderr bytes
+//! Without VERIF_COORD_SOCK it behaves like a prover that gives up.
+use std::io::{BufRead, BufReader, Read, Write};
+use std::os::unix::net::UnixStream;
+
+fn main() {
+    let sock = match std::env::var("VERIF_COORD_SOCK") {
+        Ok(s) => s,
+        Err(_) => {
+            let mut sink = Vec::new();
+            let _ = std::io::stdin().read_to_end(&mut sink);
+            println!("% SZS status GaveUp for stdin");
+            return;
+        }
+    };
+    let stream = UnixStream::connect(&sock).unwrap_or_else(|e| {
+        eprintln!("stand-in vampire: cannot reach the coordinator at {sock}: {e}");
+        std::process::exit(97);
+    });
+    let mut w = stream.try_clone().expect("clone socket");
+    let mut r = BufReader::new(stream);
+    let args: Vec<String> = std::env::args().skip(1).collect();
+    write!(w, "HELLO {} {}\n", std::process::id(), args.len()).unwrap();
+    for a in &args {
+        write!(w, "{}\n", a.replace('\n', " ")).unwrap();
+    }
+    w.flush().unwrap();
+
+    let mut line = String::new();
+    r.read_line(&mut line).unwrap();
+    let mut input = Vec::new();
+    let mut eof = false;
+    let words: Vec<&str> = line.split_whitespace().collect();
+    match words.as_slice() {
+        ["READ", "ALL"] => {
+            std::io::stdin().read_to_end(&mut input).ok();
+            eof = true;
+        }
+        ["READ", k] => {
+            let k: usize = k.parse().unwrap_or(0);
+            let mut stdin = std::io::stdin();
+            let mut buf = [0u8; 4096];
+            while input.len() < k {
+                let want = (k - input.len()).min(buf.len());
+                match stdin.read(&mut buf[..want]) {
+                    Ok(0) => {
+                        eof = true;
+                        break;
+                    }
+                    Ok(n) => input.extend_from_slice(&buf[..n]),
+                    Err(_) => break,
+                }
+            }
+        }
+        _ => std::process::exit(98),
+    }
+    write!(w, "GOT {} {}\n", input.len(), if eof { 1 } else { 0 }).unwrap();
+    w.write_all(&input).unwrap();
+    w.flush().unwrap();
+
+    line.clear();
+    if r.read_line(&mut line).unwrap_or(0) == 0 {
+        std::process::exit(99);
+    }
+    let words: Vec<&str> = line.split_whitespace().collect();
+    if let ["FINISH", code, out_len, err_len] = words.as_slice() {
+        let code: i32 = code.parse().unwrap_or(1);
+        let mut out = vec![0u8; out_len.parse().unwrap_or(0)];
+        let mut err = vec![0u8; err_len.parse().unwrap_or(0)];
+        r.read_exact(&mut out).unwrap();
+        r.read_exact(&mut err).unwrap();
+        // stop reading stdin for good before answering, like a process about to exit
+        let _ = std::io::stdout().write_all(&out);
+        let _ = std::io::stdout().flush();
+        let _ = std::io::stderr().write_all(&err);
+        let _ = std::io::stderr().flush();
+        if code < 0 {
+            unsafe {
+                libc::signal(-code, libc::SIG_DFL);
+                libc::kill(libc::getpid(), -code);
+            }
+            std::thread::sleep(std::time::Duration::from_secs(5));
+            std::process::exit(100);
+        }
+        std::process::exit(code);
+    }
+    std::process::exit(98);
+}
